@@ -3,9 +3,9 @@ import sys, warnings
 warnings.filterwarnings("ignore")
 sys.path.insert(0, "/verif")
 from xh.c14_units import *
-r = curve_api_len2_2([0, 4], [4, 0])
-print('curve_api_len2_2([0, 4], [4, 0])', "->", r)
-idx = [0, 4], [4, 0]
+r = curve_api_len2_2([1, 3], [5, 0])
+print('curve_api_len2_2([1, 3], [5, 0])', "->", r)
+idx = [1, 3], [5, 0]
 if isinstance(idx, list):
     sel = [IDS[i] for i in idx]
     print("selection:", sel)
